@@ -81,11 +81,6 @@ def parseAttr (w : String) : Option (Nat × Val) :=
 def parseSrc : String → Option AASrc
   | "n" => some .none | "q" => some .quantity | "v" => some .variable | _ => none
 
-/-- all class attributes at −1, overridden by the given pairs (later pairs win like later assignments) -/
-def mkObj (T : Table) (ty : Int) (src : AASrc) (given : List (Nat × Val)) : Obj :=
-  let base := T.classAttrs.filter (fun a => (assoc given a).isNone) |>.map (fun a => (a, Val.int (-1)))
-  { type := ty, aaSrc := src, attrs := given.reverse ++ base }
-
 def kv (w pre : String) : Option String :=
   if w.startsWith pre then some (w.drop pre.length).toString else none
 
@@ -140,14 +135,14 @@ def step (s : St) (line : String) : St × String :=
   | "tcond" :: ty :: attrs =>
     match ty.toInt?, attrs.mapM parseAttr with
     | some ty, some attrs =>
-      match modLast s.mgr (fun t => { t with conds := t.conds ++ [mkObj s.tc ty .none attrs] }) with
+      match modLast s.mgr (fun t => { t with conds := t.conds ++ [mkObj s.tc.classAttrs ty .none attrs] }) with
       | some m => ({ s with mgr := m }, "ok")
       | none => (s, "error")
     | _, _ => (s, "bad-op")
   | "teff" :: ty :: src :: attrs =>
     match ty.toInt?, parseSrc src, attrs.mapM parseAttr with
     | some ty, some src, some attrs =>
-      match modLast s.mgr (fun t => { t with effs := t.effs ++ [mkObj s.te ty src attrs] }) with
+      match modLast s.mgr (fun t => { t with effs := t.effs ++ [mkObj s.te.classAttrs ty src attrs] }) with
       | some m => ({ s with mgr := m }, "ok")
       | none => (s, "error")
     | _, _, _ => (s, "bad-op")
@@ -169,13 +164,13 @@ def step (s : St) (line : String) : St × String :=
   | "eff" :: mode :: ty :: src :: attrs =>
     match ty.toInt?, parseSrc src, attrs.mapM parseAttr, mode == "str" || mode == "content" with
     | some ty, some src, some attrs, true =>
-      let o := mkObj s.te ty src attrs
+      let o := mkObj s.te.classAttrs ty src attrs
       (s, answer (renderObj s.fx s.te (envOf (world s) s.mgr) o (mode == "str")) fun out => s!"ok shown={out.lines.length}")
     | _, _, _, _ => (s, "bad-op")
   | "cond" :: mode :: ty :: attrs =>
     match ty.toInt?, attrs.mapM parseAttr, mode == "str" || mode == "content" with
     | some ty, some attrs, true =>
-      let o := mkObj s.tc ty .none attrs
+      let o := mkObj s.tc.classAttrs ty .none attrs
       (s, answer (renderObj s.fx s.tc (envOf (world s) s.mgr) o (mode == "str")) fun out => s!"ok shown={out.lines.length}")
     | _, _, _ => (s, "bad-op")
   | ["trigger", p] =>
